@@ -5,15 +5,18 @@
 (* {1,2,4,13} x {no letter, letter}, every tandem list of TC_all (incl.    *)
 (* the same-number tandem), with and without deletion allele (n <= 2) -    *)
 (* as one ndjson line [a, t, d] for replay into the real code.             *)
-(* GenMaxN comes from the environment (IOEnv.GEN_MAXN).                    *)
+(* GenMaxN comes from the environment (IOEnv.GEN_MAXN), the tandem lists   *)
+(* from IOEnv.GEN_TC ("4": single-tandem lists only, else also the two    *)
+(* two-entry lists).                                                       *)
 (***************************************************************************)
 EXTENDS Integers, Sequences, FiniteSets, TLC, Json, IOUtils, SequencesExt
 
 GenMaxN == IF IOEnv.GEN_MAXN = "5" THEN 5 ELSE IF IOEnv.GEN_MAXN = "3" THEN 3 ELSE 4
 Nums == {1, 2, 4, 13}
 Sufs == {0, 3}
-TC == { <<>>, << <<13, 1>> >>, << <<1, 4>> >>, << <<13, 1>>, <<1, 4>> >>,
-        << <<2, 2>> >>, << <<2, 2>>, <<13, 1>> >> }
+TC4 == { <<>>, << <<13, 1>> >>, << <<1, 4>> >>, << <<2, 2>> >> }
+TC == IF IOEnv.GEN_TC = "4" THEN TC4       \* quick tier: single-tandem lists only
+      ELSE TC4 \cup { << <<13, 1>>, <<1, 4>> >>, << <<2, 2>>, <<13, 1>> >> }
 Inputs == UNION {[1..k -> Nums \X Sufs] : k \in 0..GenMaxN}
 Cases == {[a |-> s, t |-> T, d |-> h] : s \in Inputs, T \in TC, h \in BOOLEAN} 
 CasesOK == {c \in Cases : c.d => Len(c.a) <= 2}
